@@ -65,6 +65,7 @@ Print Assumptions C05_exhaust_decision_order_independent.
 (** the oracle's sort satisfies the hypotheses; non-vacuity *)
 Theorem C05_oracle_sort_ok : (forall l, Sorted name_le (isort l)) /\ (forall l, Permutation (isort l) l).
 Proof. split; [exact isort_sorted|exact isort_perm]. Qed.
+Print Assumptions C05_oracle_sort_ok.
 Example C05_example_three_records :
   rec_lookup isort [mkRec 2 [10; 11]; mkRec 3 [10; 11]; mkRec 1 [10; 11]] [10; 11]
   = rec_lookup isort [mkRec 3 [10; 11]; mkRec 1 [10; 11]; mkRec 2 [10; 11]] [10; 11].
